@@ -212,16 +212,23 @@ def main():
     def run_one(line, origin):
         recent.append(line)
         del recent[:-4]
-        try:
-            signal.setitimer(signal.ITIMER_REAL, getattr(mod, "CASE_WALL", 30))
+        impl = None
+        for attempt, wall in enumerate((getattr(mod, "CASE_WALL", 30), 4 * getattr(mod, "CASE_WALL", 30))):
+            # the wall-clock guard is a safety net of the harness (real shells, subprocesses); a case that trips it
+            # is run once more with four times the allowance before it counts — a loaded machine is not a finding
             try:
-                impl = mod.run_impl(line)
-            finally:
-                signal.setitimer(signal.ITIMER_REAL, 0)
-        except WallTimeout:
-            impl = "wall-timeout"
-        except Exception as e:  # harness-level crash is a disagreement, never silently dropped
-            impl = f"harness-exception/{type(e).__name__}/{str(e)[:80].replace(' ', '_')}"
+                signal.setitimer(signal.ITIMER_REAL, wall)
+                try:
+                    impl = mod.run_impl(line)
+                finally:
+                    signal.setitimer(signal.ITIMER_REAL, 0)
+                break
+            except WallTimeout:
+                impl = "wall-timeout"
+                stats["dist"]["wall-timeout-attempts"] = stats["dist"].get("wall-timeout-attempts", 0) + 1
+            except Exception as e:  # harness-level crash is a disagreement, never silently dropped
+                impl = f"harness-exception/{type(e).__name__}/{str(e)[:80].replace(' ', '_')}"
+                break
         model = lean.ask(model_request(line, impl))
         stats["evaluations"] += 1
         spec_ok = True
